@@ -4,8 +4,8 @@
    rejection is a theorem), every signed mode. *)
 From Coq Require Import List Arith Permutation ZArith.
 From Coq Require Import Sorted.
-From TLV Require Import Base.Shape Base.PyList Base.Tensor Model.Base Model.BaseExt Model.BasePy
-  Proofs.BaseProofs Proofs.BaseProofs2 Proofs.BaseProofs3 Proofs.BaseProofs4 Proofs.BaseProofs5 Proofs.BaseProofs6 Proofs.BaseProofs7 Proofs.BaseProofs8 Proofs.BaseProofs9 Proofs.BaseProofs10.
+From TLV Require Import Base.Shape Base.PyList Base.Tensor Model.Base Model.BaseExt Model.BasePy Model.BasePyCore
+  Proofs.BaseProofs Proofs.BaseProofs2 Proofs.BaseProofs3 Proofs.BaseProofs4 Proofs.BaseProofs5 Proofs.BaseProofs6 Proofs.BaseProofs7 Proofs.BaseProofs8 Proofs.BaseProofs9 Proofs.BaseProofs10 Proofs.BaseProofs11 Proofs.BaseProofs12 Proofs.BaseProofs13 Proofs.BaseProofs14 Proofs.BaseProofs15.
 Import ListNotations.
 
 Theorem C01_fold_unfold : forall (A : Type) (d : A) (t : tensor A) (m : nat),
@@ -448,6 +448,113 @@ Proof.
 Qed.
 Print Assumptions C01_g_is_model.
 
+(* matricize: the statement-by-statement model (sorted(columns + rows) != list(range(ndim)), prod(shape[i] for i in ...),
+   np.transpose's own axis check) is the hand model, for every list of (non-negative) modes, valid or not *)
+Theorem C01_g_matricize_is_model : forall (A : Type) (d : A) (t : tensor A) (rows : list nat) (cols : option (list nat)),
+  g_matricize (plain d) t (map Z.of_nat rows) (option_map (map Z.of_nat) cols) = matricize d t rows cols.
+Proof. exact @g_matricize_eq. Qed.
+Print Assumptions C01_g_matricize_is_model.
+
+(* ... and for EVERY list of signed modes: a negative entry can never be part of a successful request of the source (with
+   column_modes the sorted() test fails; without, the default columns make np.transpose see a repeated axis) *)
+Theorem C01_g_matricize_signed_is_model : forall (A : Type) (d : A) (t : tensor A) (rows : list Z) (cols : option (list Z)),
+  g_matricize (plain d) t rows cols = matricize_z d t rows cols.
+Proof. exact @g_matricize_z_eq. Qed.
+Print Assumptions C01_g_matricize_signed_is_model.
+
+(* ---------- the vectorising functions; the second direction of the partial round trip ---------- *)
+Theorem C01_tensor_to_vec_total : forall (A : Type) (t : tensor A),
+  exists v, tensor_to_vec t = Ok v /\ shape v = [prod (shape t)] /\ data v = data t.
+Proof. exact @tensor_to_vec_total. Qed.
+Print Assumptions C01_tensor_to_vec_total.
+
+Theorem C01_vec_to_tensor_ok_iff : forall (A : Type) (v : tensor A) (s : list nat),
+  (exists t, vec_to_tensor v s = Ok t) <-> prod s = prod (shape v).
+Proof. exact @vec_to_tensor_ok_iff. Qed.
+Print Assumptions C01_vec_to_tensor_ok_iff.
+
+Theorem C01_vec_to_tensor_layout : forall (A : Type) (d : A) (v t : tensor A) (s : list nat),
+  vec_to_tensor v s = Ok t ->
+  shape t = s /\ data t = data v /\ (forall idx, get d t idx = nth (ravel s idx) (data v) d).
+Proof. exact @vec_to_tensor_layout. Qed.
+Print Assumptions C01_vec_to_tensor_layout.
+
+Theorem C01_vec_unvec_roundtrip : forall (A : Type) (v : tensor A) (s : list nat),
+  shape v = [prod s] -> rbind (vec_to_tensor v s) (fun t => tensor_to_vec t) = Ok v.
+Proof. exact @vec_unvec_roundtrip. Qed.
+Print Assumptions C01_vec_unvec_roundtrip.
+
+(* partial_unfold after partial_fold (both ravel settings; partial_tensor_to_vec after partial_vec_to_tensor is m = 0, rav = true) *)
+Theorem C01_partial_unfold_fold : forall (A : Type) (d : A) (u : tensor A) (m : nat) (s : list nat) (sb se : nat) (rav : bool),
+  wf u -> sb + m + se < length s ->
+  let mids := firstn (length s - sb - se) (skipn sb s) in
+  shape u = firstn sb s ++ (if rav then [nth m mids 0 * prod (remove_nth m mids)]
+                            else [nth m mids 0; prod (remove_nth m mids)]) ++ lastn se s ->
+  prod (firstn sb s) * (if rav then 1 else nth (m + sb) s 0) * prod (lastn se s) <> 0 ->
+  rbind (partial_fold d u m s sb se) (fun t => partial_unfold d t m sb se rav) = Ok u.
+Proof. exact @partial_unfold_fold. Qed.
+Print Assumptions C01_partial_unfold_fold.
+
+Example C01_nonvacuous_partial_unfold_fold :
+  let u := mk [2;6;2] (seq 0 24) in let s := [2;3;2;2] in
+  wf u /\ 1 + 1 + 1 < length s /\
+  shape u = firstn 1 s ++ [nth 1 (firstn 2 (skipn 1 s)) 0 * prod (remove_nth 1 (firstn 2 (skipn 1 s)))] ++ lastn 1 s /\
+  prod (firstn 1 s) * 1 * prod (lastn 1 s) <> 0 /\
+  rbind (partial_fold 0 u 1 s 1 1) (fun t => partial_unfold 0 t 1 1 1 true) = Ok u /\
+  rbind (vec_to_tensor (mk [6] (seq 0 6)) [2;3]) (fun t => tensor_to_vec t) = Ok (mk [6] (seq 0 6)) /\
+  vec_to_tensor (mk [6] (seq 0 6)) [2;4] = Err.
+Proof. cbv zeta. unfold wf. cbn [shape data]. repeat split; try (vm_compute; reflexivity); vm_compute; auto with arith; discriminate. Qed.
+
+(* the generic Backend.moveaxis of tensorly/backend/core.py, statement by statement (negative axes read through axes[i],
+   list.pop raising, list.insert clipping): it is the hand model for EVERY pair of signed axes, and it respects whatever
+   relation the backend's transpose respects (dtype tag, permutation of the entries) *)
+Theorem C01_g_moveaxis_generic_is_model : forall (A : Type) (d : A) (t : tensor A) (a b : Z),
+  g_moveaxis_generic (plain d) t a b = moveaxis_generic_z d t a b.
+Proof. exact @g_moveaxis_generic_eq. Qed.
+Print Assumptions C01_g_moveaxis_generic_is_model.
+
+Theorem C01_g_moveaxis_generic_invariant : forall (T : Type) (B : backend T) (R : T -> T -> Prop),
+  (forall t p u, b_transpose B t p = Ok u -> R t u) ->
+  forall t a b u, g_moveaxis_generic B t a b = Ok u -> R t u.
+Proof. exact @inv_moveaxis_generic. Qed.
+Print Assumptions C01_g_moveaxis_generic_invariant.
+
+(* a map between two backends that commutes with shape / reshape / moveaxis / transpose commutes with every function ... *)
+Theorem C01_g_morphism : forall (T1 T2 : Type) (B1 : backend T1) (B2 : backend T2) (phi : T1 -> T2),
+  (forall t, b_shape B2 (phi t) = b_shape B1 t) ->
+  (forall t l, b_reshape B2 (phi t) l = rmap phi (b_reshape B1 t l)) ->
+  (forall t a b, b_moveaxis B2 (phi t) a b = rmap phi (b_moveaxis B1 t a b)) ->
+  (forall t p, b_transpose B2 (phi t) p = rmap phi (b_transpose B1 t p)) ->
+  forall t : T1,
+  g_tensor_to_vec B2 (phi t) = rmap phi (g_tensor_to_vec B1 t) /\
+  (forall s, g_vec_to_tensor B2 (phi t) s = rmap phi (g_vec_to_tensor B1 t s)) /\
+  (forall m, g_unfold B2 (phi t) m = rmap phi (g_unfold B1 t m)) /\
+  (forall m s, g_fold B2 (phi t) m s = rmap phi (g_fold B1 t m s)) /\
+  (forall m sb se rav, g_partial_unfold B2 (phi t) m sb se rav = rmap phi (g_partial_unfold B1 t m sb se rav)) /\
+  (forall m s sb se, g_partial_fold B2 (phi t) m s sb se = rmap phi (g_partial_fold B1 t m s sb se)) /\
+  (forall sb se, g_partial_tensor_to_vec B2 (phi t) sb se = rmap phi (g_partial_tensor_to_vec B1 t sb se)) /\
+  (forall s sb se, g_partial_vec_to_tensor B2 (phi t) s sb se = rmap phi (g_partial_vec_to_tensor B1 t s sb se)) /\
+  (forall rows cols, g_matricize B2 (phi t) rows cols = rmap phi (g_matricize B1 t rows cols)) /\
+  (forall a b, g_moveaxis_generic B2 (phi t) a b = rmap phi (g_moveaxis_generic B1 t a b)).
+Proof. exact @g_morphism. Qed.
+Print Assumptions C01_g_morphism.
+
+(* ... in particular forgetting the dtype tag: the typed model computes exactly the entries (and the rejections) of the
+   untyped one, to which C01_g_is_model and all the layout / round-trip theorems apply *)
+Theorem C01_g_typed_entries : forall (A : Type) (d : A) (D : Type) (a : ndarray A D),
+  g_tensor_to_vec (plain d) (arr a) = rmap arr (g_tensor_to_vec (typed d D) a) /\
+  (forall s, g_vec_to_tensor (plain d) (arr a) s = rmap arr (g_vec_to_tensor (typed d D) a s)) /\
+  (forall m, g_unfold (plain d) (arr a) m = rmap arr (g_unfold (typed d D) a m)) /\
+  (forall m s, g_fold (plain d) (arr a) m s = rmap arr (g_fold (typed d D) a m s)) /\
+  (forall m sb se rav, g_partial_unfold (plain d) (arr a) m sb se rav = rmap arr (g_partial_unfold (typed d D) a m sb se rav)) /\
+  (forall m s sb se, g_partial_fold (plain d) (arr a) m s sb se = rmap arr (g_partial_fold (typed d D) a m s sb se)) /\
+  (forall sb se, g_partial_tensor_to_vec (plain d) (arr a) sb se = rmap arr (g_partial_tensor_to_vec (typed d D) a sb se)) /\
+  (forall s sb se, g_partial_vec_to_tensor (plain d) (arr a) s sb se = rmap arr (g_partial_vec_to_tensor (typed d D) a s sb se)) /\
+  (forall rows cols, g_matricize (plain d) (arr a) rows cols = rmap arr (g_matricize (typed d D) a rows cols)) /\
+  (forall x y, g_moveaxis_generic (plain d) (arr a) x y = rmap arr (g_moveaxis_generic (typed d D) a x y)).
+Proof. exact @g_typed_entries. Qed.
+Print Assumptions C01_g_typed_entries.
+
 Example C01_nonvacuous_typed :
   let a := mkarr 5 (mk [2;3] (seq 0 6)) in
   wf (arr a) /\
@@ -456,5 +563,8 @@ Example C01_nonvacuous_typed :
     = Ok (mkarr 5 (mk [2;6;2] [0;1;4;5;8;9;2;3;6;7;10;11;12;13;16;17;20;21;14;15;18;19;22;23])) /\
   g_matricize (typed 0 nat) a [1%Z] None = Ok (mkarr 5 (mk [3;2] [0;3;1;4;2;5])) /\
   g_matricize (typed 0 nat) a [(-1)%Z] (Some [0%Z]) = Err /\
-  g_fold (typed 0 nat) (mkarr 5 (mk [3;2] [0;3;1;4;2;5])) (-1) [2%Z;3%Z] = Ok a.
+  g_fold (typed 0 nat) (mkarr 5 (mk [3;2] [0;3;1;4;2;5])) (-1) [2%Z;3%Z] = Ok a /\
+  g_moveaxis_generic (typed 0 nat) a (-1) 0 = Ok (mkarr 5 (mk [3;2] [0;3;1;4;2;5])) /\
+  g_moveaxis_generic (typed 0 nat) a 0 5 = Ok (mkarr 5 (mk [3;2] [0;3;1;4;2;5])) /\
+  g_moveaxis_generic (typed 0 nat) a 2 0 = Err.
 Proof. cbv zeta. unfold wf. cbn [arr shape data]. repeat split; vm_compute; reflexivity. Qed.
